@@ -383,11 +383,14 @@ def build(chart, naming='id', code=None, order=None, tr_order=None, name='g', pr
             warm.queue('a').execute_once()
         except Exception:
             pass
-        for nm in cm.names:     # public queries a tool may make on a chart under construction
-            sc.depth_for(nm), sc.ancestors_for(nm), sc.descendants_for(nm), sc.children_for(nm), sc.parent_for(nm)
-            sc.least_common_ancestor(nm, cm.names[-1])
+        def look():     # public queries a tool may make on a chart under construction (before and between the edits)
+            for nm in cm.names:
+                sc.depth_for(nm), sc.ancestors_for(nm), sc.descendants_for(nm), sc.children_for(nm), sc.parent_for(nm)
+                sc.least_common_ancestor(nm, cm.names[-1])
+        look()
         for i in sorted(late, key=lambda i: (cm.depth[i], i)):
             sc.move_state(cm.names[i], cm.names[cm.par[i]])
+            look()
         for i in range(cm.n):           # move_state resets initial/memory that pointed to the moved state
             st = sc.state_for(cm.names[i])
             if isinstance(st, _C):
